@@ -402,13 +402,8 @@ def h_group(c, v, operand):
             res.append(tv(hi - lo <= c["length"]))
     if c["type"] == "OrderedTaskGroup":
         for a, b in zip(names, names[1:]):
-            r = tv(_cmp_kind(c["kind"], v.end(a), v.start(b)))
-            # if an unscheduled member sat between a and b in the declared list, whether a
-            # must still precede b is the deletion reading (C06); the code cannot express it
-            ia, ib = c["tasks"].index(a), c["tasks"].index(b)
-            if ib - ia > 1 and r == F:
-                r = U
-            res.append(r)
+            # consecutive *scheduled* members are ordered (an unscheduled optional member is skipped: C06)
+            res.append(tv(_cmp_kind(c["kind"], v.end(a), v.start(b))))
     return t_and(res) if res else T
 
 
